@@ -246,15 +246,31 @@ pub fn drive_footprint(ops: &str, trace: &str) {
                     // a log: small record, sentinel, one oversized record (skipped by the judge), sentinel, small record
                     let big = geti(&run.cfg, "big") as usize;
                     let mut log: Vec<u8> = vec![1, b'a', 0xFE, 0xFD];
-                    {
-                        let mut e = Encoder::new();
-                        let mut left = big;
-                        while left > 0 {
-                            let n = left.min(POOL / 2);
-                            e.encode_copy(&pool[..n]);
-                            left -= n;
+                    match run.cfg["log"].as_str().unwrap_or("bigskip") {
+                        // `big` bytes of empty records, which the caller only looks at
+                        "empties" => {
+                            while log.len() < big {
+                                log.extend_from_slice(&[0, 0xFE, 0xFD]);
+                            }
+                            log.truncate(log.len() - 2);
                         }
-                        log.extend_from_slice(&e.finish().flatten().unwrap());
+                        // `big` bytes of records that are invalid from their first byte
+                        "junk" => {
+                            while log.len() < big {
+                                log.extend_from_slice(&[0xFF, 7, 7, 7, 0xFE, 0xFD]);
+                            }
+                            log.truncate(log.len() - 2);
+                        }
+                        _ => {
+                            let mut e = Encoder::new();
+                            let mut left = big;
+                            while left > 0 {
+                                let n = left.min(POOL / 2);
+                                e.encode_copy(&pool[..n]);
+                                left -= n;
+                            }
+                            log.extend_from_slice(&e.finish().flatten().unwrap());
+                        }
                     }
                     log.extend_from_slice(&[0xFE, 0xFD, 1, b'z']);
                     let mut peak = 0usize;
